@@ -12,8 +12,8 @@ theorem outCount_take (s : State) (sid : Sid) (ctx : Ctx) (outbound : List (Sid 
   rw [hfind, hx] at this
   simpa [outCount] using this
 
-theorem inv_outboundSubstream (s : State) (peer : Peer) (sid : Sid) (h : Inv s) :
-    Inv (onOutboundSubstream s peer sid) := by
+theorem inv_outboundSubstream (s : State) (peer : Peer) (sid : Sid) (fb : Option Nat) (h : Inv s) :
+    Inv (onOutboundSubstream s peer sid fb) := by
   simp only [onOutboundSubstream]
   split
   · exact inv_panicked s h
@@ -391,7 +391,7 @@ theorem Inv.next_zero {s : State} (h : Inv s) (r : Rid) (hr : s.nextRid ≤ r) :
   have := h.fresh r hr; have := h.ledger r
   omega
 
-theorem inv_send_fail (s : State) (h : Inv s) (peer : Peer) (request : Payload) (err : RrError)
+theorem inv_send_fail (s : State) (h : Inv s) (peer : Peer) (request : Request) (err : RrError)
     (calls' : List Call) :
     Inv (emit { s with nextRid := s.nextRid + 1, issued := s.issued ++ [⟨peer, s.nextRid, request⟩],
                        calls := calls' } (.requestFailed peer s.nextRid err)) := by
@@ -470,7 +470,7 @@ theorem activeSum_insert (l : List (Peer × PeerCtx)) (k : Peer) (x : Rid) (pc :
   simp only [optW, Option.map_some, count_setInsert r x pc.active hm] at this
   omega
 
-theorem inv_send (s : State) (peer : Peer) (request : Payload) (opts : DialOptions)
+theorem inv_send (s : State) (peer : Peer) (request : Request) (opts : DialOptions)
     (dialAns : Except DialErr Unit) (openAns : Except SubErr Sid) (h : Inv s)
     (ha : ∀ sid, openAns = .ok sid → alFind sid s.pendingOutbound = none) :
     Inv (step s (.send peer request opts dialAns openAns)) := by
